@@ -312,7 +312,7 @@ func TestVerifC19InProcess(t *testing.T) {
 	defer rep.Write()
 	rep.SetRule("http.DefaultTransport (the transport the collector's http.Client really uses) is replaced by a recorder; per case a real single-node server is configured through one route — telemetry OFF: programmatic Config, config file (nested form as documented, dotted form), LIFTBRIDGE_TELEMETRY_ENABLED=false with a config file, the same without a config file (NewConfig(\"\") + flags, as main.go does); telemetry ON: defaults, config file — started, used (2 streams, publishes, subscriptions, metadata fetch; every user-controlled string is a seeded needle), and stopped.  Oracle at the return of Stop() (it joins the collector): OFF => the recorder holds ZERO requests; ON => >= 1 request, each with JSON keys inside the documented whitelist (recursive), documented endpoint host, no unknown header, and no needle (plain / case / hex / base64 / URL-escaped) in URL, headers or body.  non-trivial = server came up, activity completed, Stop() returned (ON: >= 1 request judged); distinct = route x recorder answer x round")
 	rep.Assume("documented field list = CHANGELOG.md 'Anonymous Telemetry / What's Collected' (instance id, version, OS name/version/architecture, CPU cores physical/logical, total memory); the payload's timestamp, os.platform (the three OS values joined) and cpu.frequency_mhz (always null) are counted into those categories")
-	rep.Assume("the environment-variable opt-out is documented in CHANGELOG.md ('Or via environment variables: export LIFTBRIDGE_TELEMETRY_ENABLED=false'); this unit uses only the documented spelling 'false' (other spellings of the opt-out: matrix and binary units); precedence between a config file that says true and the variable is not documented and not tested")
+	rep.Assume("the environment-variable opt-out is documented in CHANGELOG.md ('Or via environment variables: export LIFTBRIDGE_TELEMETRY_ENABLED=false'); this unit uses only the documented spelling 'false' (other spellings of the opt-out: matrix and binary units); sources that disagree (a config file that says true against the variable, a switch-off in code after NewConfig) are the subject of the conflict unit")
 	rep.Assume("a collector that used a transport of its own would not be seen here; that is what the strace unit (binary) is for")
 
 	defer c19PlantEnv(rep)()
